@@ -71,12 +71,15 @@ def __get_token_for_ast(ast: Union[Token, ASTNode]) -> Token:  # pragma: no cove
     rhs_token = ast
     while isinstance(rhs_token, ASTNode):
         rhs_token = rhs_token.args[-1]  # type: ignore
+    if (
+        not lhs_token.source
+        or lhs_token.source_start is None
+        or rhs_token.source_end is None
+    ):
+        # (tokens inserted while the formula was rewritten have no position)
+        return Token(source=lhs_token.source)
     return Token(
-        token=(
-            lhs_token.source[lhs_token.source_start : rhs_token.source_end + 1]
-            if lhs_token.source
-            else ""
-        ),
+        token=lhs_token.source[lhs_token.source_start : rhs_token.source_end + 1],
         source=lhs_token.source,
         source_start=lhs_token.source_start,
         source_end=rhs_token.source_end,
